@@ -17,7 +17,7 @@ Work ONLY inside your private scratch git worktree of the library: /tmp/seed/{pi
 
 Shell environment for every go command (no network is available):
   export GOFLAGS=-mod=mod GOPROXY=off GOSUMDB=off GOTOOLCHAIN=local
-After running go commands run `git -C /tmp/seed/{pid}/wt status --short` and make sure go.mod/go.sum were not modified (restore them with git checkout if they were).
+After running go commands run `git -C /tmp/seed/{pid}/wt status --short` and make sure go.mod/go.sum were not modified (restore them with git checkout if they were). NEVER use `git stash` (the stash is shared with other worktrees of the same repository that other people are using right now): keep alternative edits with `git diff > file` and `git apply [-R] file` instead.
 
 THE PROPERTY ({pid}: {p['title']})
 Statement: {p['statement']}
